@@ -26,7 +26,7 @@ fn main() {
         std::process::exit(2);
     }
     // keep panic messages out of the result streams
-    std::panic::set_hook(Box::new(|_| {}));
+    if std::env::var("HARNESS_VERBOSE").is_err() { std::panic::set_hook(Box::new(|_| {})); }
     match args[1].as_str() {
         "dump-spirv" => dump_spirv::dump(&args[2], &args[3]),
         "sweep-spirv" => dump_spirv::sweep(&args[2]),
